@@ -251,6 +251,13 @@ impl Check for C14 {
             cx.count("files_skipped_too_large");
             return;
         }
+        // a change chunk of type 2 carries a DEFLATE stream; its checksum covers the inflated bytes
+        let kind: &str = if kind == "change" {
+            cx.count("kind_change");
+            if file.get(flip_from + 8) == Some(&2) { "change-compressed" } else { "change-raw" }
+        } else {
+            kind
+        };
         cx.count("files");
         cx.count(&format!("kind_{kind}"));
         let orig = match load_enc(&file, enc) {
@@ -276,10 +283,12 @@ impl Check for C14 {
                     if same {
                         cx.count("accepted_unchanged");
                         cx.violation(&format!("corruption-accepted-unchanged|{kind}"), format!("load of a {kind} file with {what} succeeded (document identical to the original), the statement demands an error"), json!({"file_len": file.len()}));
+                        // keep enumerating: the rest of the file must still be covered
+                        true
                     } else {
                         cx.violation(&format!("corruption-accepted-different-document|{kind}"), format!("load of a {kind} file with {what} succeeded and yields a DIFFERENT document"), json!({"file_len": file.len()}));
+                        false
                     }
-                    false
                 }
             }
         };
